@@ -5,6 +5,7 @@
 package rt
 
 import (
+	"math"
 	"bufio"
 	"encoding/json"
 	"fmt"
@@ -89,6 +90,9 @@ type walker struct {
 	seenPos   map[string]bool
 	err       string
 	clause    string
+	// drawn[union][member]: how often each member was met at a union-typed
+	// position, over all calls of the child
+	drawn map[reflect.Type]map[reflect.Type]int
 }
 
 func (w *walker) fail(clause, format string, a ...any) {
@@ -123,6 +127,12 @@ func (w *walker) walk(v reflect.Value, path string, depth int) {
 		if !members[dyn.Type()] {
 			w.fail("union_value_not_a_member", "%s: dynamic type %s is not a member of union %s", path, dyn.Type(), t)
 			return
+		}
+		if w.drawn != nil {
+			if w.drawn[t] == nil {
+				w.drawn[t] = map[reflect.Type]int{}
+			}
+			w.drawn[t][dyn.Type()]++
 		}
 		w.walk(dyn, path+"("+dyn.Type().Name()+")", depth+1)
 	case reflect.Struct:
@@ -394,13 +404,14 @@ func Child(p *Program, seed0 int64, k int, only string) {
 		}
 	}()
 	_ = tick
+	drawn := map[reflect.Type]map[reflect.Type]int{}
 	for _, f := range p.Funcs {
 		if only != "" && f.Name != only {
 			continue
 		}
 		st := &stat{}
 		stats[f.Name] = st
-		w := &walker{t: tb, populated: map[string]bool{}, seenPos: map[string]bool{}}
+		w := &walker{t: tb, populated: map[string]bool{}, seenPos: map[string]bool{}, drawn: drawn}
 		distinct := map[string]bool{}
 		var first reflect.Value
 		allEqual := true
@@ -493,6 +504,41 @@ func Child(p *Program, seed0 int64, k int, only string) {
 		if k >= 16 && len(never) > 0 {
 			b, _ := json.Marshal(Viol{Func: f.Name, Seed: seed0, Clause: "container_never_populated", Detail: fmt.Sprintf("in %d calls these slices/maps were always empty: %s", k, strings.Join(never, ", "))})
 			fmt.Fprintf(out, "VIOL %s\n", b)
+		}
+	}
+	// every member of a union turns up: judged per union over all the calls of
+	// this process, and only when the number of draws makes a fair generator
+	// miss a member with probability below 1e-9 (a tenth of the draws is counted:
+	// at the recursion bound the way out is forced)
+	if only == "" {
+		var names []string
+		byName := map[string]reflect.Type{}
+		for u := range drawn {
+			names = append(names, u.String())
+			byName[u.String()] = u
+		}
+		sort.Strings(names)
+		for _, name := range names {
+			u := byName[name]
+			members := tb.unions[u]
+			n, total := len(members), 0
+			for _, c := range drawn[u] {
+				total += c
+			}
+			if n < 2 || float64(n)*math.Pow(1-1/float64(n), float64(total)/10) > 1e-9 {
+				continue
+			}
+			var missing []string
+			for m := range members {
+				if drawn[u][m] == 0 {
+					missing = append(missing, m.String())
+				}
+			}
+			sort.Strings(missing)
+			if len(missing) > 0 {
+				b, _ := json.Marshal(Viol{Func: "(all functions)", Seed: seed0, Clause: "union_member_never_produced", Detail: fmt.Sprintf("union %s was drawn %d times at union-typed positions over all calls, its member(s) %s never turned up (%d members)", name, total, strings.Join(missing, ", "), n)})
+				fmt.Fprintf(out, "VIOL %s\n", b)
+			}
 		}
 	}
 	b, _ := json.Marshal(stats)
